@@ -1,4 +1,5 @@
 import SlogModel.Model.Xform
+import SlogModel.Model.Cfg
 import Driver.Util
 
 /-! Parser of the program encoding used by the line protocol (trusted I/O layer). -/
@@ -111,6 +112,80 @@ partial def stepsP : P (List Step) := do
   let n ← natTok
   repeatP n stepP
 end
+
+/-! configuration-level encoding (field names instead of indices, possibly invalid) -/
+
+def tpartTok : P Cfg.TPart := do
+  let t ← tok
+  match t.toList with
+  | 'L' :: r => match unhex (String.ofList r) with | some b => pure (.lit b) | none => failure
+  | 'V' :: r => match unhex (String.ofList r) with | some b => pure (.var b) | none => failure
+  | 'S' :: r =>
+    match (String.ofList r).splitOn ":" with
+    | [n, a, b] =>
+      match unhex n, parseOptIntTok a, parseOptIntTok b with
+      | some n, some a, some b => pure (.slice n a b)
+      | _, _, _ => failure
+    | _ => failure
+  | _ => failure
+
+def tmplTok : P Cfg.Tmpl := do
+  let t ← tok
+  if t == "T!" then pure none
+  else if t == "T" then do let n ← natTok; let ps ← repeatP n tpartTok; pure (some ps)
+  else failure
+
+def cmatchP : P Cfg.MatchCfg := do
+  let t ← tok
+  if t != "m" then failure
+  let n ← natTok
+  repeatP n (do let k ← hexTok; let v ← vmTok; pure (k, v))
+
+mutual
+partial def cstepP : P Cfg.TC := do
+  let t ← tok
+  match t with
+  | "add" =>
+    let n ← natTok
+    let pairs ← repeatP n (do let d ← hexTok; let tm ← tmplTok; pure (d, tm))
+    pure (.addFields pairs)
+  | "del" => do let n ← natTok; let ks ← repeatP n hexTok; pure (.delFields ks)
+  | "map" =>
+    let k ← hexTok
+    let n ← natTok
+    let m ← repeatP n (do let a ← hexTok; let b ← hexTok; pure (a, b))
+    let d ← hexTok
+    pure (.mapValue k m d)
+  | "if" => do let m ← cmatchP; let s ← cstepsP; pure (.iff m s)
+  | "switch" =>
+    let n ← natTok
+    let cs ← repeatP n (do let m ← cmatchP; let s ← cstepsP; pure (m, s))
+    pure (.switch cs)
+  | "block" => do let s ← cstepsP; pure (.block s)
+  | "drop" => do let m ← cmatchP; let r ← intTok; let l ← hexTok; pure (.drop m r l)
+  | "exh" | "ext" =>
+    let key ← hexTok
+    let pat ← hexTok
+    let maxLen ← intTok
+    let dest ← hexTok
+    pure (.extract (t == "ext") key pat maxLen dest)
+  | "trunc" => do let k ← hexTok; let n ← intTok; let s ← hexTok; pure (.truncate k n s)
+  | "unesc" => do let k ← hexTok; pure (.unescape k)
+  | "redact" => do let k ← hexTok; let l ← hexTok; pure (.redactEmail k l)
+  | "ptime" => do let k ← hexTok; let l ← hexTok; pure (.parseTime k l)
+  | _ => failure
+
+partial def cstepsP : P (List Cfg.TC) := do
+  let t ← tok
+  if t != "steps" then failure
+  let n ← natTok
+  repeatP n cstepP
+end
+
+def parseCfg (toks : List String) : Option (List Cfg.TC) :=
+  match cstepsP.run toks with
+  | some (p, []) => some p
+  | _ => none
 
 def parseProgram (toks : List String) : Option (List Step) :=
   match stepsP.run toks with
